@@ -5,13 +5,13 @@
 //  1. differential repetition — the search: the same input is executed N times (8 quick, 64 thorough),
 //     every time on a fresh AccountDB (and fresh trie cache) over the same committed store; Go
 //     re-randomises every map iteration; any two runs that differ are a violation, replayed with the input:
-//       L1 service.ChangeAssets on user-supplied JSON target maps (self transfers, aliases by letter case /
-//          prefix / padding, zero amounts, sums just above/below the balance, unparsable amounts),
-//       L2 whole blocks through the real VMExecutor.Execute in "fullverify" mode (transfers, miner
-//          apply/add/refund, contract create/call; after(): refund escrow, reward maps, pay-out),
-//       L3 sort.Sort(types.Transactions) on shuffles of admissible lists,
-//       L4 RefundManager.Add / CheckAndMove on multi-height data,
-//       L5 the sub-chain reward call data (VMExecutor.generateCode);
+//     L1 service.ChangeAssets on user-supplied JSON target maps (self transfers, aliases by letter case /
+//     prefix / padding, zero amounts, sums just above/below the balance, unparsable amounts),
+//     L2 whole blocks through the real VMExecutor.Execute in "fullverify" mode (transfers, miner
+//     apply/add/refund, contract create/call; after(): refund escrow, reward maps, pay-out),
+//     L3 sort.Sort(types.Transactions) on shuffles of admissible lists,
+//     L4 RefundManager.Add / CheckAndMove on multi-height data,
+//     L5 the sub-chain reward call data (VMExecutor.generateCode);
 //  2. model cases: change_assets_fixed / sort_txs / refund_add / check_and_move evaluated by Coq on the
 //     same inputs against what the implementation did.
 package main
@@ -58,7 +58,7 @@ func (stubChain) QueryBlockHeaderByHeight(height interface{}, cache bool) *types
 func (stubChain) GetAvailableGroupsByMinerId(height uint64, minerId []byte) []*types.Group {
 	return nil
 }
-func (s stubChain) GetGroupById(id []byte) *types.Group       { return s.group }
+func (s stubChain) GetGroupById(id []byte) *types.Group           { return s.group }
 func (stubChain) GetBlockHeader(height uint64) *types.BlockHeader { return nil }
 
 var tokenContract = common.HexToAddress("0x71d9cfd1b7adb1e8eb4c193ce6ffbe19b4aee0db")
@@ -409,7 +409,7 @@ func addrN(a common.Address) string {
 	return new(big.Int).Add(new(big.Int).SetBytes(a[:]), new(big.Int).Lsh(big.NewInt(1), 200)).String() + "%N"
 }
 func addrFull(a common.Address) string { return new(big.Int).SetBytes(a[:]).String() + "%N" }
-func zLit(v *big.Int) string        { return "(" + v.String() + ")%Z" }
+func zLit(v *big.Int) string           { return "(" + v.String() + ")%Z" }
 
 // ---------------------------------------------------------------------------------------------
 // L2: blocks
@@ -446,10 +446,21 @@ const runtimeCode = "600160005401600055" +
 	"42" + "4318" + "4118" + "600143034018" + "3a18" + "3218" + "600155" +
 	"60006000a0" + "00"
 
-func initCode() string {
-	n := len(runtimeCode) / 2
-	return fmt.Sprintf("60%02x600c60003960%02x6000f3", n, n) + runtimeCode
+func initCode() string { return initCodeOf(runtimeCode) }
+
+func initCodeOf(rt string) string {
+	n := len(rt) / 2
+	return fmt.Sprintf("60%02x600c60003960%02x6000f3", n, n) + rt
 }
+
+// windowRuntime: acc = XOR of BLOCKHASH(i) for i = NUMBER-1 down to 0 (every height the 256 window
+// reaches at the harness's heights), stored in slot 2:
+//
+//	PUSH1 0; NUMBER; loop: JUMPDEST; PUSH1 1; SWAP1; SUB; DUP1; BLOCKHASH; SWAP1; SWAP2; XOR; SWAP1;
+//	DUP1; PUSH1 loop; JUMPI; POP; PUSH1 2; SSTORE; STOP
+const windowRuntime = "6000" + "43" + "5b" + "6001" + "90" + "03" + "80" + "40" + "90" + "91" + "18" + "90" + "80" + "6003" + "57" + "50" + "6002" + "55" + "00"
+
+var deployedWin common.Address
 
 var blockWorld *world
 var deployed common.Address
@@ -818,17 +829,19 @@ func main() {
 		adb := blockWorld.fresh()
 		cd, _ := json.Marshal(types.ContractData{GasLimit: "3000000", TransferValue: "0", AbiData: "0x" + initCode()})
 		t := txDesc{Type: types.TransactionTypeContract, Source: addrHex(addr(8)), Data: string(cd), RequestId: 1}.tx()
+		cdw, _ := json.Marshal(types.ContractData{GasLimit: "3000000", TransferValue: "0", AbiData: "0x" + initCodeOf(windowRuntime)})
+		tw := txDesc{Type: types.TransactionTypeContract, Source: addrHex(addr(7)), Data: string(cdw), RequestId: 2}.tx()
 		common.SetBlockHeight(blockHeight - 2)
 		hd := header()
 		hd.Height = blockHeight - 1
-		_, _, _, rcs := core.VerifC01ExecuteBlock(adb, &types.Block{Header: hd, Transactions: []*types.Transaction{t}}, "testing")
-		if len(rcs) != 1 || rcs[0].Status != 0 && rcs[0].Msg == "" {
-			res.Note("deploy receipt: " + fmt.Sprint(len(rcs)))
+		_, _, _, rcs := core.VerifC01ExecuteBlockWithChain(adb, &types.Block{Header: hd, Transactions: []*types.Transaction{t, tw}}, "testing", &ctlChain{})
+		if len(rcs) != 2 {
+			panic("deploy receipts: " + fmt.Sprint(len(rcs)))
 		}
-		if len(rcs) == 1 {
-			deployed = rcs[0].ContractAddress
-			res.Note(fmt.Sprintf("callee deployed at %s status=%d msg=%s", deployed.GetHexString(), rcs[0].Status, rcs[0].Msg))
-		}
+		deployed = rcs[0].ContractAddress
+		deployedWin = rcs[1].ContractAddress
+		res.Note(fmt.Sprintf("callee deployed at %s status=%d; block hash window reader at %s status=%d %s", deployed.GetHexString(), rcs[0].Status,
+			deployedWin.GetHexString(), rcs[1].Status, rcs[1].Msg))
 		root, err := adb.Commit(true)
 		must(err)
 		must(adb.Database().TrieDB().Commit(root, false))
@@ -1150,6 +1163,9 @@ func main() {
 				map[string]interface{}{"proposals": props, "address-array-variants": ex})
 		}
 	}
+
+	// ---- L9 the real chain contexts: main chain height index, fork DB (last: installs node globals) ----
+	forkContextSearch(a, rng.Fork(), res)
 
 	cs.Close()
 	res.ModelCases = cs.Total()
